@@ -121,6 +121,9 @@ def contradicts(expect, obs):
                         why.append("failing read (%s) moved the cursor: offset %d -> %d" % (res[:40], off0, off1))
             except Exception as ex_:
                 why.append("could not evaluate read contract: %s" % ex_)
+        elif e[0] in ("stack_at_most", "depth_at_most"):
+            if obs["depth"] is None or obs["depth"] > e[1]:
+                why.append("stack holds %r items, more than %d" % (obs["depth"], e[1]))
         elif e[0] == "depth":
             if obs["depth"] != e[1]:
                 why.append("depth %r != %r" % (obs["depth"], e[1]))
